@@ -84,10 +84,28 @@ def correspondence(ctx):
             "distribution": {"client_cases": len(cl), "pooled_cases": len(pooled)}, "exhaustive": True, "disagreements": dis}
 
 
+def late_cases(ctx):
+    """the interruption surfaces inside sendall AFTER the request has been taken by the kernel (so its reply will arrive):
+    every operation that reads a reply x every position of a non-recv socket call x the three exception kinds"""
+    out = []
+    for cfg in CONFIGS:
+        c = dict(cfg, default_noreply=False)
+        for op, rep in OPS:
+            if rep is None:
+                continue
+            for fop, frep in FOLLOW:
+                ops = [op, fop, fop]
+                rbo = {0: rep, 1: frep, 2: frep}
+                for kind in BASE:
+                    for pos in range(0, 9):
+                        out.append((c, ops, [0] * pos + [(TAGS[kind], "after")], [], rbo))
+    return out
+
+
 def search(ctx):
     """Reply ownership on the real classes: bytes are tagged with the call that elicited them."""
     found = []
-    cl = cases(ctx)
+    cl = cases(ctx) + late_cases(ctx)
     n = 0
     for c, ops, sc, ch, rbo in cl:
         for pooled_size in (None, 1):
